@@ -106,3 +106,10 @@ Proof. exact timeframe_from_max. Qed.
 Theorem c14_timeframe_till_is_numeric_min : forall pos vs, Nat.even pos = false -> vs <> [] -> Forall wfv vs ->
   exists m, fold_left (slot_step pos) vs None = Some m /\ In m vs /\ forall v, In v vs -> lex_cmp (ints m) (ints v) <= 0.
 Proof. exact timeframe_till_min. Qed.
+
+(* literals the model repeats from the source are the ones the translator extracts from the current source (gen/Tables.v) *)
+From VGen Require Import Tables.
+From VModel Require Import Version.
+From VProofs Require Import TieProofs.
+Theorem c14_tie_products : P_OpenSSH = product_OpenSSH /\ P_Dropbear = product_DropbearSSH /\ P_LibSSH = product_LibSSH.
+Proof. exact tie_products. Qed.
